@@ -73,9 +73,11 @@ META = {
                 "The matrix-level statements (*_hat_Adj/_AdjT, *_exp_Adj/_AdjT) hold for every input but are about matrix(X) and MATHLIB's "
                 "exp of the hat matrix, not about the coded Exp; no theorem here combines them with C01 into a bound for the coded Exp on "
                 "Taylor branches -- those inputs are covered by the 50-digit vee(M a^ M^-1) oracle only",
-                "Jinvp as the first-order change of Log(Exp(tau)@X): SO3 (angle > eps) and SE3 (angle > max(eps, 0.05)) are theorems "
-                "(SO3_Jinvp_first_order, SE3_Jinvp_first_order, through C04's Log/Retr tangent theorems); RxSO3: Jl·Jinvp = p and uniqueness "
-                "(RxSO3_Jinvp_spec/_unique, no first-order theorem); Sim3: truncation, distance theorems only; ||Log X|| <= eps: exact defect polynomial for "
+                "Jinvp as the first-order change of Log(Exp(tau)@X): SO3, RxSO3 (angle > eps) and SE3 (angle > max(eps, 0.05)) are theorems "
+                "(SO3/RxSO3/SE3_Jinvp_first_order, through C04's Log/Retr tangent theorems), and at rotation angle exactly 0 for all four groups "
+                "(SO3_Jinvp_first_order_one, SE3_Jinvp_first_order_translation: every pure translation, RxSO3_Jinvp_first_order_scale: every pure "
+                "scaling, Sim3_Jinvp_first_order_one: the identity element); no derivative statement for 0 < angle <= eps; Sim3 away from the "
+                "identity: truncation, distance theorems only; ||Log X|| <= eps: exact defect polynomial for "
                 "SO3 (SO3_Jinvp_spec_taylor_partial) and Jinvp(identity, p) = p for all four groups (*_Jinvp_one); otherwise finite differences "
                 "and the mpmath oracle on the real code",
                 "Jr = Jl(-x), R(Exp x)·Jr = Jl and the derivative form are proved for eps < ||x|| (and the value 1 at x = 0); on 0<||x||<=eps the "
@@ -148,8 +150,40 @@ class Pending:
 SCALE_FLOOR = {"float32": 16 * 1.1754944e-38 / 2.0 ** -23, "float64": 16 * 2.2250738585072014e-308 / 2.0 ** -52}
 
 
+def amax(vals, default=0.0):
+    """NaN-propagating maximum (lesson 38b): python's max() silently drops a NaN that is not the first element"""
+    m = default
+    for v in vals:
+        if v != v:
+            return math.nan
+        if v > m:
+            m = v
+    return m
+
+
+def nonfinite_fail(ctx, case, Zt, what, Xe=None, ae=None) -> bool:
+    """lesson 38a: every result of the real code for a finite valid input is finite (on the unchanged tree no C05 entry point returns a
+    non-finite value for any generated input, quick or thorough; neither the property text nor the documentation specifies a non-finite
+    result anywhere).  Tested BEFORE any tolerance comparison; records the failing item; True if a failure was recorded."""
+    Zt = Zt.tensor() if hasattr(Zt, "ltype") else Zt
+    Zt = Zt.detach()
+    if not Zt.numel() or not Zt.is_floating_point() or bool(torch.isfinite(Zt).all()):
+        return False
+    n = Xe.shape[0] if Xe is not None else (ae.shape[0] if ae is not None else 0)
+    zf = Zt.double().reshape(n, -1) if n and Zt.numel() % n == 0 else Zt.double().reshape(1, -1)
+    i = int((~torch.isfinite(zf)).any(-1).nonzero()[0])
+    item = {"index": i, "result": [str(v) for v in zf[i].tolist()[:16]]}
+    if Xe is not None and zf.shape[0] == n:
+        item["X"] = Xe[i].double().tolist()
+    if ae is not None and zf.shape[0] == n:
+        item["a"] = ae[i].double().tolist()
+    ctx.fail(case | {"item": item}, f"non-finite result: {what} returned {item['result']} at item {i} for the finite valid input "
+                                    f"X={item.get('X')}, a={item.get('a')} ({case.get('type')}, {case.get('dtype')})")
+    return True
+
+
 def block_err(got, want, sl, scale, floor):
-    return max((abs(g - w) for g, w in zip(got[sl], want[sl])), default=0.0) / max(scale, floor)
+    return amax(abs(g - w) for g, w in zip(got[sl], want[sl])) / max(scale, floor)
 
 
 def best(cands, errfn):
@@ -157,8 +191,8 @@ def best(cands, errfn):
     out = None
     for w in cands:
         e = errfn(w)
-        r = max((v[0] / v[1] if v[1] > 0 else (0.0 if v[0] == 0 else math.inf)) for v in e.values()) if e else 0.0
-        if out is None or r < out[0]:
+        r = amax((v[0] / v[1] if v[1] > 0 else (0.0 if v[0] == 0 else math.inf)) for v in e.values()) if e else 0.0
+        if out is None or r < out[0] or (out[0] != out[0] and r == r):      # a NaN ratio never beats a finite one
             out = (r, e)
     return out
 
@@ -390,7 +424,7 @@ def retr_errfn(name, dtype, x, a, got):
     def fn(want):
         out = {"q": (math.sqrt(sum((g - w) ** 2 for g, w in zip(got[U.QSL[name]], want[U.QSL[name]]))), tq)}
         if tsc is not None:
-            out["t"] = (max(abs(g - w) for g, w in zip(got[U.TSL[name]], want[U.TSL[name]])), tsc)
+            out["t"] = (amax(abs(g - w) for g, w in zip(got[U.TSL[name]], want[U.TSL[name]])), tsc)
         if s is not None:
             i = U.SIDX[name]
             out["s"] = (abs(got[i] - want[i]) / max(abs(want[i]), 1e-300), K_ALG * e * (1 + abs(sg)))
@@ -514,6 +548,8 @@ def _prepare(ctx: Ctx, case) -> list:
             if isinstance(J, P.LieTensor) or tuple(J.shape) != sa + (3, 3) or J.dtype != D:
                 ctx.fail(case, f"type: {api} returned {type(J).__name__} {tuple(J.shape)} {J.dtype}")
                 return pend
+            if nonfinite_fail(ctx, case, J, api, Xe=items):
+                return pend
             Jf = J.double().reshape(-1, 9)
             for i in range(items.shape[0]):
                 got = Jf[i].tolist()
@@ -521,7 +557,7 @@ def _prepare(ctx: Ctx, case) -> list:
                 tol = 4 * math.sqrt(eps) * (1 + th)
 
                 def chk(cands, got=got, tol=tol, i=i, th=th):
-                    r, errs = best(cands, lambda w: {"J": (max(abs(g - v) for g, v in zip(got, w)), tol)})
+                    r, errs = best(cands, lambda w: {"J": (amax(abs(g - v) for g, v in zip(got, w)), tol)})
                     if bad_blocks(errs):
                         ctx.disagree("ops", case | {"item": {"index": i, "theta": th}}, f"{case['api']} {dtype} theta={th:.3e}: {bad_blocks(errs)}")
                 pend.append(Pending(mlines(mop, eps, items[i].tolist(), flags[i]), chk))
@@ -552,10 +588,12 @@ def _prepare(ctx: Ctx, case) -> list:
             ref = T["x64"].to(D) + (alpha * T["a64"].to(D))[..., :A]
             if not torch.equal(Z.tensor(), ref.expand(so + (A,))):
                 err = float((Z.tensor().double() - ref.double()).abs().max()) if Z.numel() else 0.0
-                if err > 4 * eps * float(ref.abs().max() + 1):
+                if not (err <= 4 * eps * float(ref.abs().max() + 1)):
                     ctx.fail(case, f"algadd: algebra `{api}` is not x + alpha*other[..., :m] (max err {err:.3e}, {name}, {dtype})")
             xe = T["x64"].expand(so + (A,)).reshape(-1, A)
             ae = T["a64"].expand(so + (T["a64"].shape[-1],)).reshape(-1, T["a64"].shape[-1])
+            if nonfinite_fail(ctx, case, Z, f"algebra {api}", Xe=xe, ae=ae):
+                return pend
             Zf = Z.tensor().double().reshape(-1, A)
             for i in range(xe.shape[0]):
                 xi_, ai_ = xe[i].tolist(), ae[i].tolist()
@@ -563,7 +601,7 @@ def _prepare(ctx: Ctx, case) -> list:
                 sc = max(U.max_abs(xi_), abs(alpha) * U.max_abs(ai_), SCALE_FLOOR[dtype])
 
                 def chk(cands, got=got, sc=sc, i=i):
-                    r, errs = best(cands, lambda w: {"v": (max(abs(g - v) for g, v in zip(got, w)) / sc, 4 * eps)})
+                    r, errs = best(cands, lambda w: {"v": (amax(abs(g - v) for g, v in zip(got, w)) / sc, 4 * eps)})
                     if bad_blocks(errs):
                         ctx.disagree("ops", case | {"item": {"index": i}}, f"algebra add {name} {dtype}: {bad_blocks(errs)}")
                 pend.append(Pending([f"{U.ALG[name]}.add " + common.wire_list([eps, alpha] + xi_ + ai_)], chk))
@@ -578,7 +616,7 @@ def _prepare(ctx: Ctx, case) -> list:
 
         if op in ("Adj", "AdjT"):
             Z = X.Adj(a) if op == "Adj" else X.AdjT(a)
-            if not type_ok(Z, algT, so + (A,), op):
+            if not type_ok(Z, algT, so + (A,), op) or nonfinite_fail(ctx, case, Z, op, Xe=Xe, ae=ae):
                 return pend
             Z2 = X.Adj(a) if op == "Adj" else X.AdjT(a)
             if not torch.equal(Z.tensor(), Z2.tensor()):
@@ -613,7 +651,7 @@ def _prepare(ctx: Ctx, case) -> list:
                 ctx.fail(case, f"purity: {api} modified the group operand X ({name})")
             if not torch.equal(torch.Tensor.as_subclass(a, torch.Tensor), ab):
                 ctx.fail(case, f"purity: {api} modified the tangent operand ({name})")
-            if not type_ok(Z, U.ltype(name), so + (G,), api):
+            if not type_ok(Z, U.ltype(name), so + (G,), api) or nonfinite_fail(ctx, case, Z, api, Xe=Xe, ae=ae):
                 return pend
             Zf = Z.tensor().double().reshape(-1, G)
             for i in range(Xe.shape[0]):
@@ -633,7 +671,7 @@ def _prepare(ctx: Ctx, case) -> list:
 
         elif op == "Jinvp":
             Z = X.Jinvp(a) if case["id"] % 2 else P.Jinvp(X, a)
-            if not type_ok(Z, algT, so + (A,), "Jinvp"):
+            if not type_ok(Z, algT, so + (A,), "Jinvp") or nonfinite_fail(ctx, case, Z, "Jinvp", Xe=Xe, ae=ae):
                 return pend
             Zf = Z.tensor().double().reshape(-1, A)
             xis = X.Log().tensor().double().expand(so + (A,)).reshape(-1, A) if X.numel() else torch.zeros(0, A)
@@ -752,6 +790,9 @@ def law_case(ctx: Ctx, case) -> bool:
     kt = 4 * math.sqrt(e) + K_ALG * e
     try:
         # X @ Exp(a) = Exp(Adj(X, a)) @ X
+        for lab_, z_ in (("Adj", X.Adj(a)), ("AdjT", X.AdjT(a)), ("Retr", X.Retr(a))):
+            if nonfinite_fail(ctx, case, z_, f"{name}.{lab_}", Xe=Xe.reshape(-1, G), ae=ae.reshape(-1, A)):
+                return False
         lhs, rhs = X @ a.Exp(), X.Adj(a).Exp() @ X
         tsc = nt + sX * wn * ntau + wn * (sX * ntau + nt * (nphi + asg)) + es * nt
         bad = worst_bad(tdist_blocks(name, lhs.tensor(), rhs.tensor()), {"q": tq, "t": kt * (tsc + fl), "s": tsr})
@@ -917,8 +958,12 @@ def adj_oracle_case(ctx: Ctx, case, got=None) -> bool:
         a = P.LieTensor(torch.tensor(case["a"], dtype=torch.float64).to(D), ltype=algT)
         if got is None:
             got = (X.Adj(a) if op == "Adj" else X.AdjT(a)).tensor().double().tolist()
+        if nonfinite_fail(ctx, case, torch.tensor(got, dtype=torch.float64), f"{name}.{op}(X,a)", Xe=X.tensor().double().reshape(1, -1), ae=a.tensor().double().reshape(1, -1)):
+            return False
         mp.mp.dps = 50
         Mf = X.matrix().double()
+        if nonfinite_fail(ctx, case, Mf, f"{name}.matrix()", Xe=X.tensor().double().reshape(1, -1)):
+            return False
         n = Mf.shape[-1]
         M = mp.matrix([[mp.mpf(float(Mf[i, j])) for j in range(n)] for i in range(n)])
         Mi = M ** -1
@@ -961,6 +1006,8 @@ def jinvp_oracle_case(ctx: Ctx, case, got=None) -> bool:
     n0 = len(ctx.failures)
     try:
         got = X.Jinvp(p).tensor().double().tolist() if got is None else got
+        if nonfinite_fail(ctx, case, torch.tensor(got, dtype=torch.float64), f"{name}.Jinvp(X,p)", Xe=X.tensor().double().reshape(1, -1), ae=p.tensor().double().reshape(1, -1)):
+            return False
         xi = X.Log().tensor().double().tolist()
         pv = p.tensor().double().tolist()
         Ad = mp_ad(mp, name, xi)
@@ -997,11 +1044,12 @@ def jinvp_oracle_case(ctx: Ctx, case, got=None) -> bool:
             hm = P.LieTensor(-h * p.tensor(), ltype=algT)
             fd = ((hp.Exp() @ X).Log().tensor() - (hm.Exp() @ X).Log().tensor()) / (2 * h)
             xin = max(1.0, max(abs(v) for v in xi))
-            scale = max(1.0, max(abs(v) for v in got))
+            scale = max(1.0, amax(abs(v) for v in got)) if all(v == v for v in got) else 1.0
             tol = 3e-4 * scale * xin + trunc
             err = float((fd.double() - torch.tensor(got)).abs().max())
-            ctx.hist["jinvp.fd.max_err_over_tol_percent"] = max(ctx.hist.get("jinvp.fd.max_err_over_tol_percent", 0), int(100 * err / tol))
-            if err > tol:
+            if err == err:
+                ctx.hist["jinvp.fd.max_err_over_tol_percent"] = max(ctx.hist.get("jinvp.fd.max_err_over_tol_percent", 0), int(100 * min(err, 1e6) / tol))
+            if not (err <= tol):
                 ctx.fail(c2, f"jinvp-fd: {name}.Jinvp is not the first-order change of Log(Exp(tau)@X) in direction p: {err:.3e} > {tol:.3e}")
     except Exception as ex:
         ctx.fail(case, f"raises: Jinvp oracle on {name} raised {type(ex).__name__}: {str(ex)[:160]}")
@@ -1054,13 +1102,13 @@ def jr_oracle_case(ctx: Ctx, case, got=None) -> bool:
         ref = mp_Jl(mp, -K)
         refl = [float(ref[i, j]) for i in range(3) for j in range(3)]
         tol = 4 * math.sqrt(e) * (1 + th)
-        err = max(abs(g - r) for g, r in zip(got, refl))
+        err = amax(abs(g - r) for g, r in zip(got, refl))
         if not err <= tol:
             ctx.fail(case, f"jr-exact: so3.Jr differs from the right Jacobian sum (-K)^n/(n+1)! by {err:.3e} > {tol:.3e} at theta={th:.3e} ({dtype})")
         # SO3.Jr(X) = so3.Jr(Log X) whenever the angle is inside the principal range
         if th < 3.1:
             J2 = x.Exp().Jr().double().reshape(-1).tolist()
-            err2 = max(abs(g - r) for g, r in zip(J2, refl))
+            err2 = amax(abs(g - r) for g, r in zip(J2, refl))
             if not err2 <= 2 * tol:
                 ctx.fail(case, f"jr-group: SO3.Jr(Exp x) differs from the right Jacobian at x by {err2:.3e} > {2 * tol:.3e} at theta={th:.3e} ({dtype})")
         if th == 0.0 and not torch.equal(J, torch.eye(3, dtype=D)):
@@ -1073,8 +1121,8 @@ def jr_oracle_case(ctx: Ctx, case, got=None) -> bool:
                 d = d * (1e-5 / dn)
                 lhs = P.so3(x.tensor() + d).Exp()
                 rhs = x.Exp() @ P.so3((J @ d.unsqueeze(-1)).squeeze(-1)).Exp()
-                dist = float(min((lhs.tensor() - rhs.tensor()).norm(), (lhs.tensor() + rhs.tensor()).norm()))
-                if dist > 1e-9 * (1 + th) + 4 * math.sqrt(e) * 1e-5:
+                dist = float(torch.minimum((lhs.tensor() - rhs.tensor()).norm(), (lhs.tensor() + rhs.tensor()).norm()))     # NaN-propagating
+                if not (dist <= 1e-9 * (1 + th) + 4 * math.sqrt(e) * 1e-5):
                     ctx.fail(case, f"jr-law: Exp(x+d) != Exp(x)@Exp(Jr(x)d) to first order: {dist:.3e} for |d|=1e-5, theta={th:.3e}")
     except Exception as ex:
         ctx.fail(case, f"raises: Jr oracle raised {type(ex).__name__}: {str(ex)[:160]}")
@@ -1107,7 +1155,17 @@ AX = [(0.0, 0.0, 1.0), (0.6, 0.0, 0.8), (1 / 3, -2 / 3, 2 / 3), (-0.8, 0.6, 0.0)
 DIRS = [(1.0, 0.0, 0.0), (0.48, -0.6, 0.64), (-2 / 7, 3 / 7, 6 / 7), (0.0, -1.0, 0.0)]
 
 
+_CORNER_CACHE = {}
+
+
 def corner_group_rows(name, dtype):
+    """memoised (the tie searches cost 0.05-0.2 s per call and the rows are requested ~40 times per run); returns fresh lists"""
+    if (name, dtype) not in _CORNER_CACHE:
+        _CORNER_CACHE[(name, dtype)] = _corner_group_rows(name, dtype)
+    return [(list(r), t) for r, t in _CORNER_CACHE[(name, dtype)]]
+
+
+def _corner_group_rows(name, dtype):
     """fixed group elements: identity, the eps-neighbourhood, sqrt(eps), ordinary in both hemispheres, pi-, |w| ~ 0 on both
     sides, translations 0..1e6, scales e^±big with big beyond the 'documented' range (valid: any positive scale)"""
     e = teps(dtype)
@@ -1153,6 +1211,19 @@ def corner_group_rows(name, dtype):
                 break
         except Exception:
             break
+    # lesson 38c: exact ties of every floating comparison in SO3_Log / so3_Jl(_inv) / rxso3_Ws, with exactly representable data
+    # (appended last: the indices of the rows above are used by other streams)
+    ties += [("tie |v|==eps", [e, 0.0, 0.0, 1.0], 1.0, 2, 0.0), ("tie |v|==eps,w<0", [0.0, -e, 0.0, -1.0], 2.0, 3, 0.3),
+             ("tie |w|==eps", [1.0, 0.0, 0.0, e], 1.0, 1, 0.0), ("tie |w|==eps,w<0", [0.0, 0.0, -1.0, -e], 0.5, 0, -0.2),
+             ("tie w==+0", [0.0, 1.0, 0.0, 0.0], 1.0, 3, 0.0), ("tie w==-0", [0.6, 0.0, 0.8, -0.0], 1.0, 2, 0.1),
+             ("tie Log angle==eps", [e / 2, 0.0, 0.0, 1.0], 1.0, 0, 0.0)]
+    for sgn in (1.0, -1.0):        # a scale whose logarithm is exactly ±eps in this dtype (the |sigma| > eps guard of rxso3_Ws / Log)
+        s0 = torch.tensor(1.0 + sgn * e, dtype=D)
+        for _ in range(8):
+            if float(torch.log(s0)) == sgn * e:
+                ties.append((f"tie log(scale)=={'+' if sgn > 0 else '-'}eps", quat_of(0.4, AX[1]), 1.0, 1, ("S", float(s0))))
+                break
+            s0 = torch.nextafter(s0, torch.tensor(1.0 + 4 * sgn * e, dtype=D))
     for tag, q, tm, dr, ls in ties:
         spec.append((tag, ("Q", q), 0, False, tm, dr, ls))
     for tag, ang, ax, neg, tm, dr, ls in spec:
@@ -1167,7 +1238,7 @@ def corner_group_rows(name, dtype):
             r += [tm * c for c in DIRS[dr]]
         r += q
         if name in ("RxSO3", "Sim3"):
-            r.append(math.exp(ls))
+            r.append(ls[1] if isinstance(ls, tuple) else math.exp(ls))
         rows.append((r, tag))
     return rows
 
@@ -1213,6 +1284,7 @@ def corner_alg_rows(name, dtype):
     mk("tie sigma==theta", (0.0, 1.0, 0.0), (0.0, 0.3, 0.0), 0.3)
     mk("tie sigma==-theta", (1.0, 0.0, 0.0), (0.0, 0.0, -0.3), -0.3)
     mk("tie th==eps,sg==eps", (1.0, 1.0, 1.0), (e, 0.0, 0.0), e)
+    mk("tie th==eps,sg==-eps", (0.0, 2.0, 0.0), (0.0, -e, 0.0), -e)
     mk("all<=0 with a zero (max==0)", (-1.0, 0.0, -2.0), (-0.3, 0.0, -0.2), -0.4)
     mk("components sum to 0", (1.0, -1.0, 0.0), (0.3, -0.3, 0.0), 0.0)
     return rows
@@ -1228,6 +1300,8 @@ def single_vs_batched(ctx, case, name, dtype, op, X, a, Z, stride=1):
     Xe = X.tensor().expand(so + X.shape[-1:]).reshape(-1, X.shape[-1])
     ae = torch.Tensor.as_subclass(a, torch.Tensor).expand(so + a.shape[-1:]).reshape(-1, a.shape[-1])
     Zf = Z.tensor().reshape(-1, Z.shape[-1])
+    if nonfinite_fail(ctx, case, Zf, f"batched {op}", Xe=Xe, ae=ae):
+        return False
     algT = getattr(P, U.ALG[name] + "_type")
     blocks = [sl for sl in ((U.PHISL[name], U.TAUSL[name], U.SIGIDX[name]) if Z.ltype == algT else
                             (U.QSL[name], U.TSL[name], U.SIDX[name])) if sl is not None]
@@ -1257,10 +1331,11 @@ def corpus_block(ctx: Ctx, pend, name, dtype, gr, ar, tag="corner", grads=(None,
     Ar = U.to_dtype_exact([r[0] for r in ar], dtype)[1].tolist()
     base = {"stream": "corpus", "type": name, "dtype": dtype, "shape_X": [len(Xr), 1], "shape_a": [len(Ar)], "X": Xr, "a": Ar,
             "tags": [tag], "id": 1}
-    for op in ("Adj", "AdjT", "Retr", "add", "Jinvp"):
+    for oi, op in enumerate(("Adj", "AdjT", "Retr", "add", "Jinvp")):
         case = dict(base, op=op, a_lt=(op != "add"))
-        if ctx.quick and op in ("AdjT", "add"):
-            case["a"], case["shape_a"] = Ar[::2], [len(Ar[::2])]
+        if ctx.quick:        # quick tier: every op sees every group row and half of the tangent rows (alternating halves, so every row is used by some op)
+            sub = Ar[(oi % 2)::2]
+            case["a"], case["shape_a"] = sub, [len(sub)]
         if op == "add":
             case.update(api="+", extra=0, alpha=1.0)
         pend += prepare(ctx, case)
@@ -1278,6 +1353,8 @@ def corpus_block(ctx: Ctx, pend, name, dtype, gr, ar, tag="corner", grads=(None,
     for gm in grads:
         law_case(ctx, {"stream": "laws", "type": name, "dtype": dtype, "shape_X": [len(Xr), 1], "shape_a": [len(Ar)], "X": Xr, "a": Ar, "grad": gm})
     for i, x in enumerate(Xr):   # exact adjoint oracle on a fixed pairing (three tangent rows per group row)
+        if ctx.quick and dtype == "float32" and i % 2 and not gr[i][1].startswith("tie"):
+            continue      # quick tier, second dtype: every other non-tie row
         for j in (((5 * i) % len(Ar),) if ctx.quick else ((5 * i) % len(Ar), (5 * i + 4) % len(Ar), (5 * i + 8) % len(Ar))):
             for op in ("Adj", "AdjT"):
                 adj_oracle_case(ctx, {"stream": "adj", "type": name, "dtype": dtype, "op": op, "X": x, "a": Ar[j]})
@@ -1286,6 +1363,8 @@ def corpus_block(ctx: Ctx, pend, name, dtype, gr, ar, tag="corner", grads=(None,
         q = x[U.QSL[name]]
         if 2 * math.atan2(n2(q[:3]), abs(q[3])) > 3.1:
             continue
+        if ctx.quick and i % 2 and not gr[i][1].startswith("tie"):
+            continue      # quick tier: the mpmath oracle (a 14x14 expm for Sim3) on every other non-tie row; all rows go through the 192-bit model
         jinvp_oracle_case(ctx, {"stream": "jinvp", "type": name, "dtype": dtype, "X": x, "p": Ar[(3 * i + 1) % len(Ar)], "fd": False})
         ctx.note_case(("corpus-jinvp", tag, name, dtype, i), True)
 
@@ -1298,8 +1377,10 @@ def run_corpus(ctx: Ctx):
     for name in U.GROUPS:
         for dtype in ("float64", "float32"):
             gr, ar = corner_group_rows(name, dtype), corner_alg_rows(name, dtype)
+            if ctx.quick and dtype == "float32" and name in ("SE3", "RxSO3"):
+                continue      # quick tier: the second dtype on two groups (SO3, Sim3)
             if ctx.quick and dtype == "float32":      # quick tier: every other corner for the second dtype (the full grid runs in float64)
-                gr, ar = gr[::2], ar[1::2]
+                gr, ar = gr[::3] + [r for r in gr[21:] if r not in gr[::3]][::2], ar[1::2]
             corpus_block(ctx, pend, name, dtype, gr, ar, grads=((None, "both") if ctx.quick else (None, "X", "a", "both")))
     for dtype in ("float64", "float32"):
         rows = corner_alg_rows("SO3", dtype)
@@ -1340,7 +1421,7 @@ def history_probe(ctx: Ctx):
     import random as _r
     rng = _r.Random(505)
     for name in U.GROUPS:
-        for dtype in ("float64", "float32"):
+        for dtype in (("float64", "float32") if (not ctx.quick or name in ("SO3", "Sim3")) else ("float64",)):   # quick tier: second dtype on two groups
             eps, D = teps(dtype), U.dt(dtype)
             G, A = U.GDIM[name], U.ADIM[name]
             algT = getattr(P, U.ALG[name] + "_type")
@@ -1392,6 +1473,8 @@ def history_probe(ctx: Ctx):
                     r1, r2 = reads(st), reads(ref)
                     # the calls on the long-lived objects come first: whatever the previous step left behind is still in place
                     z1s = {key: fn() for key, fn in r1.items()}
+                    if any(nonfinite_fail(ctx, case | {"step": si, "update": lab, "read": key, "X": st["X"].tensor().double().tolist(), "a": st["a"].tensor().double().tolist(), "t": st["t"].double().tolist()}, z_, f"{key} after step #{si} ({lab}) on X={st['X'].tensor().double().tolist()}") for key, z_ in z1s.items()):
+                        raise StopIteration
                     for k2 in ("X", "a", "t"):
                         if not torch.equal(torch.Tensor.as_subclass(st[k2], torch.Tensor), torch.Tensor.as_subclass(ref[k2], torch.Tensor)):
                             ctx.fail(case | {"step": si}, f"purity: a read modified its operand `{k2}` ({name}, {dtype})")
@@ -1438,7 +1521,7 @@ def run_views(ctx: Ctx):
     import random as _r
     rng = _r.Random(606)
     for name in U.GROUPS:
-        for dtype in ("float64", "float32"):
+        for dtype in (("float64", "float32") if (not ctx.quick or name in ("SO3", "Sim3")) else ("float64",)):   # quick tier: second dtype on two groups
             eps, D = teps(dtype), U.dt(dtype)
             G, A = U.GDIM[name], U.ADIM[name]
             algT = getattr(P, U.ALG[name] + "_type")
@@ -1471,6 +1554,8 @@ def run_views(ctx: Ctx):
                        "Retr": lambda X, a: X.Retr(P.LieTensor(a, ltype=algT)), "+": lambda X, a: X + a, "pp.add": lambda X, a: P.add(X, a)}
                 Xc = P.LieTensor(Xd.clone(), ltype=U.ltype(name))
                 want = {k2: f(Xc, ad.clone()).tensor() for k2, f in ops.items()}
+                for k2, w_ in want.items():
+                    nonfinite_fail(ctx, case | {"op": k2}, w_, f"{k2} on contiguous operands", Xe=Xd.reshape(-1, G), ae=ad.reshape(-1, A))
                 xviews, aviews = views_of(Xd, G), views_of(ad, A)
                 xviews["expanded"] = (Xd[:, :1].clone(), None)
                 for xk, (xbuf, xv) in xviews.items():
@@ -1632,6 +1717,7 @@ def mode_order_probe(ctx: Ctx):
                                 z1 = _val(call(False)[2]).clone()
                         X, a, z = call(True)
                         zt = z.tensor() if hasattr(z, "ltype") else z
+                        nonfinite_fail(ctx, case | {"op": k2}, zt, k2, Xe=Xt, ae=at)
                         zt.sum().backward()
                         if first is None:
                             with torch.inference_mode():
@@ -1652,7 +1738,7 @@ def run_modes(ctx: Ctx):
     import pickle
     P = U.pp()
     order_log = {}
-    combos = [(n_, d_) for n_ in U.GROUPS for d_ in ("float64", "float32")]
+    combos = [(n_, d_) for n_ in U.GROUPS for d_ in ("float64", "float32") if not (ctx.quick and d_ == "float32" and n_ in ("SE3", "RxSO3"))]
     fixed = {}
     for name, dtype in combos:
         e, D = teps(dtype), U.dt(dtype)
@@ -1690,6 +1776,7 @@ def run_modes(ctx: Ctx):
             X, a, aL = mk()
             for k2, f in sp.items():
                 base[k2] = _val(f(X, a, aL))
+                nonfinite_fail(ctx, case | {"op": k2}, base[k2], k2, Xe=Xd, ae=ad)
             order_log[(name, dtype)] = base
             for k2, al in (("X+a", 1.0), ("X+aL", 1.0), ("X.add(a)", 1.0), ("X.add(aL)", 1.0), ("pp.add(X,a)", 1.0), ("X.add(a,alpha=0.5)", 0.5),
                            ("X.add(a,0.5)", 0.5), ("pp.add(X,a,alpha=-2)", -2.0), ("X.add(other=a,alpha=3)", 3.0), ("X.Retr(aL)", 1.0),
@@ -1725,8 +1812,11 @@ def run_modes(ctx: Ctx):
                         ("user subclass of the LieType", dict(userlt=True), contextlib.nullcontext),
                         ("user LieType subclasses overriding dimension/embedding/manifold as properties", dict(proplt=True), contextlib.nullcontext)]
             if ctx.quick and dtype == "float32":      # quick tier: the second dtype runs the mode variants that differ most
-                variants = [v for v in variants if v[0] in ("requires_grad both", "no_grad, requires_grad both", "inference_mode, plain",
-                                                            "default dtype float64", "pp.Parameter X / nn.Parameter a") or v[0].startswith("user LieType subclasses")]
+                variants = [v for v in variants if v[0] in ("requires_grad both", "inference_mode, plain", "default dtype float64")
+                            or v[0].startswith("user LieType subclasses")]
+            if ctx.quick and dtype == "float64":      # quick tier: variants that repeat a mode already present in another combination run in the thorough tier
+                variants = [v for v in variants if v[0] not in ("requires_grad a", "non-leaf graph operands", "no_grad, plain", "inference_mode, requires_grad both",
+                                                                "default dtype float64, requires_grad both")]
             for vlab, kw, cm in variants:
                 X, a, aL = mk(**kw)
                 for k2, f in sp.items():
@@ -2031,6 +2121,8 @@ def run_dispatch(ctx: Ctx, n_cases: int):
             ctx.fail(case, f"dispatch-shape: {sp} on lshapes {case['shape_X']},{case['shape_o']} returned {type(res).__name__} of shape {tuple(res.shape)}, "
                            f"documented broadcast gives {shape + (last,)} ({name})")
             continue
+        if nonfinite_fail(ctx, case, res, sp):
+            continue
         got = res.tensor().double().reshape(-1, G).tolist()
         so_ = shape
         Xe = torch.tensor(case["X"], dtype=torch.float64).reshape(tuple(case["shape_X"]) + (G,)).expand(so_ + (G,)).reshape(-1, G).tolist() if got else []
@@ -2230,8 +2322,10 @@ def run_large(ctx: Ctx):
         for op in LARGE_OPS:
             if op in ("Jr", "jr") and name != "SO3":
                 continue
+            if ctx.quick and op == "add":
+                continue      # quick tier: `+` runs through Retr's and add_'s kernels, both of which are in the list
             plans.append((name, "float64", op, (n1,), (n1,)))
-            if op in ("Adj", "Jinvp", "add", "AdjT"):
+            if op in (("Adj", "Jinvp") if ctx.quick else ("Adj", "Jinvp", "add", "AdjT")):
                 plans.append((name, "float64", op, (5, 1), (3277,)))
             if (op == "Jinvp" or (op == "Adj" and not ctx.quick)) and name in ("SE3", "Sim3"):
                 plans.append((name, "float64", op, (n2,), (n2,)))
@@ -2240,7 +2334,7 @@ def run_large(ctx: Ctx):
                 plans.append((name, "float64", op, (), (n1,)))
                 plans.append((name, "float64", op, (n1,), ()))
             if op == "Jinvp":
-                for k in (33, 129, 1025):
+                for k in ((1025,) if ctx.quick else (33, 129, 1025)):
                     plans.append((name, "float32", op, (k,), (k,)))
             if not ctx.quick:
                 for k in (1 << 14, (1 << 14) - 1, (1 << 15) + 1, 1 << 16):
@@ -2250,6 +2344,11 @@ def run_large(ctx: Ctx):
     for i, (name, dtype, op, sx, sa) in enumerate(plans):
         if ctx.quick and sx == (n2,):      # quick tier: 2^16+1 with the last item / last 2^14+1 items alone instead of three full splits
             large_case(ctx, name, dtype, op, sx, sa, 1000 + i, pend, cuts=set(), tails=[n2 - 1, n2 - 1 - (1 << 14)])
+            continue
+        if ctx.quick and max(tuple(torch.broadcast_shapes(sx, sa)), default=0) >= n1 - 1:
+            # quick tier: one full split in the middle + the items from 2^14 on alone + the last item alone (thorough: four full splits)
+            nn = max(tuple(torch.broadcast_shapes(sx, sa)))
+            large_case(ctx, name, dtype, op, sx, sa, 1000 + i, pend, cuts={nn // 2}, tails=[1 << 14, nn - 1, 1])
             continue
         large_case(ctx, name, dtype, op, sx, sa, 1000 + i, pend)
     # class 34: sizes beyond 2^17.  quick: 2^18+37 for every entry point, the tails n % 2^k (k = 5, 6..17 -> 5 and 37 items) and the last item alone;
@@ -2262,10 +2361,9 @@ def run_large(ctx: Ctx):
             for op in LARGE_OPS:
                 if op in ("Jr", "jr") and name != "SO3":
                     continue
-                if dtype == "float32" and op not in ("Adj", "Jinvp", "Retr"):
+                if dtype == "float32" and not ctx.quick and op not in ("Adj", "Jinvp", "Retr"):
                     continue
-                if ctx.quick and (op in ("add", "algadd") or (op == "add_" and name != "SE3") or (op == "Retr" and name != "Sim3")
-                                  or (op == "AdjT" and name != "RxSO3")):
+                if ctx.quick and (op in ("add", "algadd", "jr", "Retr", "add_", "AdjT") or (op == "Jinvp" and name == "Sim3")):
                     continue      # quick tier: Adj and Jinvp on every group; AdjT (= Adj of the inverse) and the spellings of + (shared kernels) on one group each
                 j += 1
                 tails = sorted({nb - nb % (1 << k) for k in (5, 10, 17, 18)} | {nb - 1})
@@ -2315,7 +2413,7 @@ def run_algshort(ctx: Ctx):
             ctx.disagree("algshort", case, f"algebra {case['api']} with an operand of width {case['width']} ({case['type']}): the code raised {raised}, the model returns a value")
             continue
         want = [float(common.from_wire(t)) for t in toks if t]
-        if len(want) != len(got) or max(abs(g - v) for g, v in zip(got, want)) > 8 * teps(case["dtype"]) * 4:
+        if len(want) != len(got) or not (amax(abs(g - v) for g, v in zip(got, want)) <= 8 * teps(case["dtype"]) * 4):
             ctx.disagree("algshort", case, f"algebra {case['api']} width {case['width']} ({case['type']}, {case['dtype']}): {got} vs model {want}")
 
 
@@ -2401,6 +2499,8 @@ def poison_probe(ctx: Ctx):
     try:
         for key, rd in reads_all.items():
             first[key] = rd()
+            for k2, v in first[key].items():
+                nonfinite_fail(ctx, {"stream": "poison", "type": key[0], "dtype": key[1], "read": k2}, v, f"{k2} (first evaluation)")
     except Exception as ex:
         ctx.fail({"stream": "poison"}, f"raises: first evaluation of the C05 operations raised {type(ex).__name__}: {str(ex)[:160]}")
         return
@@ -2527,7 +2627,8 @@ def run_dtypes(ctx: Ctx):
                         sl = slice(sl, sl + 1) if isinstance(sl, int) else sl
                         d = float((zf[i][sl] - rf[i][sl]).abs().max())
                         sc_ = max(float(rf[i].abs().max()), 1.0)
-                        ctx.hist[f"dtypes.maxratio.{dn}"] = max(ctx.hist.get(f"dtypes.maxratio.{dn}", 0), round(d / (tol * sc_), 3))
+                        if d == d and d != math.inf:
+                            ctx.hist[f"dtypes.maxratio.{dn}"] = max(ctx.hist.get(f"dtypes.maxratio.{dn}", 0), round(d / (tol * sc_), 3))
                         if not d <= tol * sc_:
                             ctx.fail(case | {"item": i}, f"dtype: {lab} on {name} in {dn}: item {i} differs from the float64 value on the same operands by "
                                                          f"{d:.3e} > {tol * sc_:.3e}")
@@ -2597,7 +2698,7 @@ def run_band(ctx: Ctx):
     """band rows through the whole corpus machinery (192-bit model, single-item calls, laws, 50-digit adjoint oracle, mpmath Jinvp oracle)"""
     pend = []
     for name in U.GROUPS:
-        for dtype in ("float64", "float32"):
+        for dtype in (("float64",) if ctx.quick else ("float64", "float32")):
             gr, ar = band_rows(name, dtype)
             if ctx.quick:
                 gr, ar = (gr[::3] + gr[-1:], ar[1::3] + ar[-1:]) if dtype == "float64" else (gr[1::5] + gr[-1:], ar[::5] + ar[-1:])
@@ -2643,8 +2744,9 @@ def run_covariance(ctx: Ctx):
                     except Exception as ex:
                         ctx.fail(case, f"raises: {lab} with the tangent operand scaled by 2^{k} raised {type(ex).__name__}: {str(ex)[:120]} ({name}, {dtype})")
                         continue
-                    ok = torch.isfinite(z2).all(-1) & torch.isfinite(z1).all(-1)
-                    bad = ((z1 != z2).any(-1) & ok).nonzero().flatten()
+                    if nonfinite_fail(ctx, case, z1, f"{lab} with a scaled by 2^{k}", Xe=Xt, ae=at * c) or nonfinite_fail(ctx, case, z2, lab, Xe=Xt, ae=at):
+                        continue
+                    bad = (z1 != z2).any(-1).nonzero().flatten()
                     if len(bad):
                         i = int(bad[0])
                         ctx.fail(case | {"item": i, "X": Xt[i].double().tolist(), "a": at[i].double().tolist()},
@@ -2666,8 +2768,9 @@ def run_covariance(ctx: Ctx):
                         ctx.fail(case, f"raises: {lab} with translations scaled by 2^{k} raised {type(ex).__name__}: {str(ex)[:120]} ({name}, {dtype})")
                         continue
                     z2[:, U.TSL[name] if grp else U.TAUSL[name]] *= c
-                    ok = torch.isfinite(z2).all(-1) & torch.isfinite(z1).all(-1)
-                    bad = ((z1 != z2).any(-1) & ok).nonzero().flatten()
+                    if nonfinite_fail(ctx, case, z1, f"{lab} with translations scaled by 2^{k}", Xe=Xs, ae=as_) or nonfinite_fail(ctx, case, z2, lab, Xe=Xt, ae=at):
+                        continue
+                    bad = (z1 != z2).any(-1).nonzero().flatten()
                     if len(bad):
                         i = int(bad[0])
                         ctx.fail(case | {"item": i, "X": Xt[i].double().tolist(), "a": at[i].double().tolist()},
@@ -2707,10 +2810,10 @@ def run(ctx: Ctx):
     run_dtypes(ctx)
     run_covariance(ctx)
     run_band(ctx)
-    run_ops(ctx, ctx.pick(450, 7000))
-    run_laws(ctx, ctx.pick(160, 5000))
-    run_jinvp_oracle(ctx, ctx.pick(90, 2500))
-    run_jr_oracle(ctx, ctx.pick(80, 2000))
+    run_ops(ctx, ctx.pick(380, 7000))
+    run_laws(ctx, ctx.pick(90, 5000))
+    run_jinvp_oracle(ctx, ctx.pick(70, 2500))
+    run_jr_oracle(ctx, ctx.pick(60, 2000))
 
 
 def search(ctx: Ctx):
